@@ -10,6 +10,7 @@ import (
 	"path/filepath"
 	"runtime/debug"
 	"sort"
+	"strings"
 )
 
 type checkFn func(c *Check)
@@ -87,6 +88,21 @@ func runCheck(id, tier string) (code int) {
 		}
 	}()
 	f(c)
+	if tier == "thorough" {
+		// the same rules again on the Go files of every other architecture family
+		// (the tag-selected decoder and checksum files differ; so does the word size)
+		for _, arch := range thoroughArchs {
+			archSubst = arch
+			goWordBits = 64
+			if arch == "386" || arch == "arm" {
+				goWordBits = 32
+			}
+			f(c)
+		}
+		archSubst = ""
+		goWordBits = 64
+		runSelftest(c)
+	}
 	return c.Finish(verifDir)
 }
 
@@ -138,6 +154,9 @@ func replay(path string) int {
 
 // loadOrTrouble loads a configuration and records checker trouble on failure.
 func loadOrTrouble(c *Check, cfg Config) *Program {
+	if archSubst != "" && cfg.GOARCH == "amd64" {
+		cfg.GOARCH = archSubst
+	}
 	p, err := Load(cfg)
 	if err != nil {
 		c.TroubleF("%v", err)
@@ -159,13 +178,21 @@ var (
 	cfgARM64   = Config{GOARCH: "arm64"}
 	cfgARM     = Config{GOARCH: "arm"}
 	cfgARMNo   = Config{GOARCH: "arm", Tags: "noasm"}
-	quickCfgs  = []Config{cfgAMD64, cfgNoasm}
-	thoroughCf = []Config{cfgAMD64, cfgNoasm, cfg386, cfgARM64, cfgARM, cfgARMNo}
 )
 
-func cfgsFor(tier string) []Config {
-	if tier == "thorough" {
-		return thoroughCf
+// archSubst, when set, makes every load of an amd64 configuration load the
+// same configuration for that architecture instead (thorough tier).
+var archSubst string
+
+var thoroughArchs = []string{"386", "arm64", "arm"}
+
+// cfgLabel: configuration label of an obligation recorded now.
+func (c *Check) cfgLabel() string {
+	if archSubst == "" {
+		return c.curCfg
 	}
-	return quickCfgs
+	if c.curCfg == "" {
+		return "linux/" + archSubst
+	}
+	return strings.Replace(c.curCfg, "amd64", archSubst, 1)
 }
